@@ -187,8 +187,8 @@ func ctxInstances(tier string) []Instance {
 
 func init() {
 	register(&Check{ID: "C08",
-		Rule: "9 call variants (12 thorough) x node-1 state {down, silent (handler never returns), window full (this call's write blocks), sender busy (an earlier message with a never-ending context is stuck in the write, this call queues behind it)} x send buffer {0,1(,2)} x context end {Canceled, DeadlineExceeded} x {already ended before the call, ended by a free-running thread placed by the explorer at every instant within the deviation bound: before queuing, while queued, while being written, while waiting}; oracle (strict, untimed): at quiescence after the context ended - no timer fired, no handler returned - the call has returned / its future or correctable is done, and a reported error matches the context's error under errors.Is; an outcome is (instance, returned, error reported)",
-		Gen:  ctxInstances,
+		Rule:        "9 call variants (12 thorough) x node-1 state {down, silent (handler never returns), window full (this call's write blocks), sender busy (an earlier message with a never-ending context is stuck in the write, this call queues behind it)} x send buffer {0,1(,2)} x context end {Canceled, DeadlineExceeded} x {already ended before the call, ended by a free-running thread placed by the explorer at every instant within the deviation bound: before queuing, while queued, while being written, while waiting}; oracle (strict, untimed): at quiescence after the context ended - no timer fired, no handler returned - the call has returned / its future or correctable is done, and a reported error matches the context's error under errors.Is; an outcome is (instance, returned, error reported)",
+		Gen:         ctxInstances,
 		Assumptions: []string{"'promptly' is decided in its untimed form: completion by library-internal steps only, without any timer expiry or further message", "transport window 1 so that a non-reading server blocks the second unread write"},
 	})
 }
